@@ -14,11 +14,13 @@ pub mod c14;
 pub mod c15;
 pub mod c16;
 pub mod c17;
+pub mod c18;
 pub mod c19;
 pub mod c20;
 pub mod lincheck;
 pub mod macro_table;
 pub mod solvers;
+pub mod stages;
 pub mod c05;
 
 use crate::runner::{run, RunArgs};
@@ -39,6 +41,7 @@ pub fn dispatch(id: &str, args: &RunArgs) -> i32 {
         "C15" => run(&c15::C15, args),
         "C16" => run(&c16::C16, args),
         "C17" => run(&c17::C17, args),
+        "C18" => run(&c18::C18, args),
         "C19" => run(&c19::C19, args),
         "C20" => run(&c20::C20, args),
         "C03" => run(&c03::C03, args),
